@@ -32,7 +32,12 @@ def load_shm_program():
 class NowModel:
     """symbolic execution of ClockErrorBound::now() for one symbolic record and one pair of clock readings"""
 
-    def __init__(self, prog, tag=''):
+    def __init__(self, prog, tag='', by_clock_id=True):
+        # by_clock_id: the two clocks stand still during the call (every read of CLOCK_REALTIME returns the one realtime reading,
+        # every read of a monotonic clock the one monotonic reading): C05/C06/C14 are statements about the answer as a function of
+        # that pair, and this is also what the native replay's virtual clock does.  by_clock_id=False (C12): the n-th read of the
+        # call returns the n-th reading, each an independent value.
+        self.by_clock_id = by_clock_id
         self.prog = prog
         I = lambda n: z3.Int(n + tag)
         self.v = v = {k: I(k) for k in ('as_s', 'as_n', 'va_s', 'va_n', 'bound', 'drift', 'st', 're_s', 're_n', 'mo_s', 'mo_n')}
@@ -53,8 +58,8 @@ class NowModel:
 
         def clock_env(ex_, st, callee, args, fn):
             i = len([e for e in st.trace if e.kind == 'clock_gettime'])
-            if i >= 6:
-                raise EngineError('more than six clock reads on a path of now()')
+            if i >= 12:
+                raise EngineError('more than twelve clock reads on a path of now()')
             while i >= len(self.readings):
                 # further reads: later readings of the two clocks (each at or after every earlier reading of the same path)
                 k = len(self.readings)
@@ -63,8 +68,14 @@ class NowModel:
                 self.ex.side.append(z3.And(n_ >= 0, n_ < NS, s_ >= -Y68, s_ <= Y68))
                 self.extra_reads = getattr(self, 'extra_reads', []) + [(k, s_, n_)]
             ok = self.clock_ok[i]
+            ri = i
+            if self.by_clock_id:
+                cid = z3.simplify(args[0]) if isinstance(args[0], z3.ExprRef) else None
+                if cid is None or not z3.is_int_value(cid):
+                    raise EngineError('clock id of a read in now() is not a constant')
+                ri = 0 if cid.as_long() == 0 else 1
             ret = Enum(z3.If(ok, z3.IntVal(0), z3.IntVal(1)),
-                       {'Ok': Struct([self.readings[i]]),
+                       {'Ok': Struct([self.readings[ri]]),
                         'Err': Struct([Enum(0, {'SyscallError': Struct([Struct([z3.Int('errno%d' % i)]), Opaque('origin:clock_gettime')])})])})
             st.trace = st.trace + (Event('clock_gettime', (args[0],), ret, {'index': i}),)
             return ret
